@@ -4,6 +4,8 @@ import (
 	"math/big"
 	"time"
 
+	"github.com/formancehq/numscript/internal/verifmc/env"
+
 	"github.com/formancehq/numscript/internal/verifmc/mc"
 	"github.com/formancehq/numscript/internal/verifmc/ref"
 )
@@ -47,10 +49,15 @@ func c05Dst() *DstCfg {
 func runC05(w *mc.Worker) {
 	owns := clausesOf("C05.")
 	nontriv := func(m *ref.Result, out *Out) bool {
-		if m.Err != "" || len(m.Stmts) == 0 || m.Stmts[0].Sent.Sign() == 0 {
+		if m.Err != "" {
 			return false
 		}
-		return len(m.Stmts[0].Dists) >= 2
+		for _, st := range m.Stmts {
+			if st.Sent != nil && st.Sent.Sign() != 0 && len(st.Dists) >= 2 {
+				return true
+			}
+		}
+		return false
 	}
 	src := &SrcCfg{Asset: "USD", Accts: ws(0, "world"), WOverdraft: -1, WUnbounded: -1, WVar: -1, WInorder: -1, WCapped: -1, WAllot: -1}
 	srcA := &SrcCfg{Asset: "USD", Accts: ws(0, "a"), WOverdraft: -1, WUnbounded: -1, WVar: -1, WInorder: -1, WCapped: -1, WAllot: -1}
@@ -78,9 +85,11 @@ func runC05(w *mc.Worker) {
 			VarAcctVals: []string{"x", "a"}, PortVals: []string{"1/2", "1/3", "0/1", "1/1"}, Asset: "USD"}
 		runSendSpace(w, &sp, owns, nontriv)
 	}
+	runVarSeqSpace(w, "vars-L2", 1, 2, func(c *seqCase, vars map[string]string, bal env.Bal) {
+		judgeSeqCase(w, c, vars, bal, owns, nontriv, false)
+	})
 	if w.Tier == "quick" {
 		stage("w3-d2", "destination trees of weight <= 3, depth <= 2; amounts {0,1,2,3,5,8}", 3, 2, amtQ)
-		stage("w4-d2", "destination trees of weight <= 4, depth <= 2; amounts {0,1,2,3,5,8}", 4, 2, amtQ)
 	} else {
 		stage("w4-d2-H", "destination trees of weight <= 4, depth <= 2; amounts {0,1,2,3,5,7,8,100,H,2H}", 4, 2, amtT)
 		stage("w5-d3", "destination trees of weight <= 5, depth <= 3; amounts {0,1,2,3,5,8}", 5, 3, amtQ)
